@@ -370,6 +370,13 @@ def run_property(pid, tier, seed):
         thms, audit_out = ([], "")
         if ok_proofs:
             thms, audit_out = audit(pid)
+        recheck = None
+        if ok_proofs and tier == "thorough":
+            # independent re-check of the compiled proofs
+            r = sh(["lake", "env", "leanchecker"] + P.modules_for(pid), cwd=LEAN)
+            recheck = r.returncode == 0
+            if not recheck:
+                ok_proofs, out_proofs = False, "leanchecker: " + (r.stdout + r.stderr)[-1500:]
         err = build_harness()
     if err:
         print("ERROR: harness does not build against %s:\n%s" % (REPO, err[-2000:]))
@@ -485,6 +492,7 @@ def run_property(pid, tier, seed):
             "real_sweeps": [{k: v for k, v in r.items() if k != "failures"} | {"failures": len(r["failures"])} for r in real_reports],
             "unmodelled": unmodelled,
             "facts_regenerated": facts_ok,
+            "leanchecker_ok": recheck,
             "known_findings_reproduced": sorted(known_hits),
             "exhaustive": all(nq == 0 for _, nq, _ in cfg["fams"]),
         },
@@ -494,10 +502,11 @@ def run_property(pid, tier, seed):
     }
     if ev["coverage"]["obligations"] == 0:
         ev["coverage"].pop("obligations"); ev["coverage"].pop("discharged")
-    os.makedirs(os.path.join(VERIF, "evidence"), exist_ok=True)
-    tmp = os.path.join(VERIF, "evidence", pid + ".json.tmp")
+    evdir = os.environ.get("VERIF_EVIDENCE_DIR", os.path.join(VERIF, "evidence"))
+    os.makedirs(evdir, exist_ok=True)
+    tmp = os.path.join(evdir, pid + ".json.tmp")
     json.dump(ev, open(tmp, "w"), indent=1)
-    os.replace(tmp, os.path.join(VERIF, "evidence", pid + ".json"))
+    os.replace(tmp, os.path.join(evdir, pid + ".json"))
     log("%s %s: obligations=%d discharged=%d evaluations=%d nontrivial=%d unmodelled=%d violations=%d (%.1fs)" % (
         pid, tier, obligations, discharged, evaluations, nontrivial, unmodelled, len(violations), time.time() - t0))
     return rc
